@@ -97,6 +97,7 @@ macro_rules! c03_gamma {
     };
 }
 //@ id: c03_gamma_f64
+//@ besteffort: yes
 //@ prop: C03
 //@ tier: thorough
 //@ cap: 1500
